@@ -8,6 +8,8 @@ from irparse import *
 def san(n):
     if n.startswith('%'): n = n[1:]
     if n.startswith('"'): n = n[1:-1]
+    n = re.sub(r'ArduinoJson::V[0-9A-Z]+::', 'AJ::', n)   # drop the configuration-dependent inline namespace
+    n = re.sub(r'^(class|struct|union)\.', '', n)
     return re.sub(r'[^A-Za-z0-9_]', lambda m: '_', n)
 
 class EmitT:
